@@ -169,9 +169,6 @@ Definition c06_example_header : header :=
            [mkId [114;103;32;49] [((83,77), [115])]] [mkId [112] []; mkId [113] [((80,80), [112])]]
            [[104;105;9;120]; []].
 
-Lemma nodup1 {A} (a : A) : NoDup [a].
-Proof. constructor; [intros []|constructor]. Qed.
-
 Example c06_header_example :
   wf_header c06_example_header /\
   exists t, write_header c06_example_header = Some t /\ read_header t = Some c06_example_header.
@@ -188,7 +185,7 @@ Proof.
     + unfold wf_id, others_ok. repeat constructor; cbn; try apply nodup1; try (intros []).
     + cbn. constructor; [intros [H|[]]; discriminate H|apply nodup1].
     + unfold co_ok. repeat constructor; cbn; try lia; try discriminate.
-  - eexists. split; vm_compute; reflexivity.
+  - eexists. split; [vm_compute; reflexivity|vm_compute; reflexivity].
 Qed.
 
 (* ---- SAM vs BAM, records without optional fields (scope of C05's codec theorem) *)
